@@ -157,7 +157,13 @@ Inductive place :=
 | P_query             (* everything in the query string, empty body *)
 | P_grant_query       (* grant_type in the query string only, the rest in the body *)
 | P_grant_conflict    (* body as usual, the query string carries another grant_type *)
-| P_field_conflict.   (* the body carries a decoy code / refresh_token, the query string the real one *)
+| P_field_conflict    (* the body carries a decoy code / refresh_token, the query string the real one *)
+| P_overlap.          (* schedule rather than placement: the request (everything in the body) was SENT BEFORE the
+                         operation that precedes it in the history and was in flight - past its client
+                         authentication, about to make its first state-dependent storage call (code / refresh
+                         token lookup) - while that operation ran from start to end.  The machine answers it
+                         as if it had been sent alone afterwards (C04_placement_irrelevant, C07_overlap_alone),
+                         and has no in-flight state through which it could influence the overlapping operation *)
 
 Inductive grant := G_code | G_refresh.
 Definition other_grant (g : grant) : grant := match g with G_code => G_refresh | G_refresh => G_code end.
@@ -168,13 +174,13 @@ Definition form_last {A} (p : param A) : option A := match snd p with Some v => 
 
 Definition place_grant (pl : place) (g : grant) : param grant :=
   match pl with
-  | P_body | P_field_conflict => (Some g, None)
+  | P_body | P_field_conflict | P_overlap => (Some g, None)
   | P_query | P_grant_query => (None, Some g)
   | P_grant_conflict => (Some g, Some (other_grant g))
   end.
 Definition place_field {A} (pl : place) (v decoy : A) : param A :=
   match pl with
-  | P_body | P_grant_query | P_grant_conflict => (Some v, None)
+  | P_body | P_grant_query | P_grant_conflict | P_overlap => (Some v, None)
   | P_query => (None, Some v)
   | P_field_conflict => (Some decoy, Some v)
   end.
@@ -206,9 +212,8 @@ Record tokresp := {
   t_at : nat; t_at_sub : string;
   t_jwt : option string;   (* JWT access token: its client_id claim (no scope claim is written) *)
   t_rt : option nat;
-  t_sub : string; t_aud : list string; t_azp : string; t_nonce : string; t_auth : nat;  (* id_token;
-     t_sub is observed only when scope openid was granted (the driver reports t_at_sub otherwise):
-     without openid the claim is whatever the storage's userinfo mapping leaves there *)
+  t_sub : string; t_aud : list string; t_azp : string; t_nonce : string; t_auth : nat;  (* id_token; t_sub is
+     its sub claim - the request's subject whether or not the storage's userinfo mapping asserts one *)
   t_scope : list string                    (* scope member of the response *)
 }.
 
